@@ -94,6 +94,15 @@ def run_check(prop, tier, keep=False, only=None, jobs=16):
                     extra_flags=["--exact"], cbmc_args=cbmc_args,
                     log_prefix=os.path.join(d, "kani-%d" % len(cmds)))
                 cmds.append(" ".join(cmd[:14]) + " ... (%d harnesses)" % len(names))
+                try:
+                    ld = os.path.join(scratch.CACHE, "logs")
+                    os.makedirs(ld, exist_ok=True)
+                    for ext in (".log", ".json"):
+                        src_f = os.path.join(d, "kani-%d%s" % (len(cmds) - 1, ext))
+                        if os.path.exists(src_f):
+                            shutil.copy(src_f, os.path.join(ld, "%s-%s-%d%s" % (prop, tier, len(cmds) - 1, ext)))
+                except Exception:
+                    pass
                 if not compile_ok:
                     sys.stdout.write(log[-3000:])
                     raise Undecided("contract module no longer compiles against /repo (lost anchor / API change)")
@@ -131,7 +140,15 @@ def run_check(prop, tier, keep=False, only=None, jobs=16):
                     undecided.append("%s: %s" % (h.name, hr.status))
             # ---------------------------------------------------- replay failures natively
             seen = set()
-            for v in violations:
+            # replay at most two failing harnesses natively (the cheapest ones); the others share the report
+            order = {r["harness"]: r["duration_s"] for r in harness_reports}
+            budget = sorted({v["harness"] for v in violations}, key=lambda h: order.get(h, 0))[:2]
+            for v in sorted(violations, key=lambda v: order.get(v["harness"], 0)):
+                if v["harness"] not in budget:
+                    first = [x for x in violations if "replay" in x]
+                    v["replay"] = first[0]["replay"] if first else os.path.join(REPLAY, "%s-%s.rs" % (prop, v["harness"]))
+                    v["has_input"] = first[0]["has_input"] if first else False
+                    continue
                 if v["harness"] in seen:
                     v["replay"] = [x for x in violations if x["harness"] == v["harness"] and "replay" in x][0]["replay"]
                     v["has_input"] = [x for x in violations if x["harness"] == v["harness"] and "has_input" in x][0]["has_input"]
